@@ -51,6 +51,23 @@ Theorem C07_verdict_after_history : forall h matches pr, In 0 pr -> forall L ops
 Proof. exact verdict_after_history. Qed.
 Print Assumptions C07_verdict_after_history.
 
+(* the subset entry point (Engine::check_network_request_subset) reads the same enabled set on
+   every path: exceptions consulted because an earlier engine matched or because the caller forces
+   it are tag-filtered like any other *)
+Theorem C07_verdict_after_history_subset : forall h matches pr, In 0 pr -> forall mr fc L ops,
+  id_inj L -> TG h matches pr L ->
+  blocker_check_p matches pr mr fc (run_ops h L ops) = spec_verdict_p matches mr fc L (set_ops ops).
+Proof. exact verdict_after_history_p. Qed.
+Print Assumptions C07_verdict_after_history_subset.
+
+Theorem C07_forced_exception_reads_tags : forall matches fc L T,
+  spec_verdict_p matches true fc L T
+  = let imp := existsb (act matches T) (of_cat CImportant L) in
+    let exc := existsb (act matches T) (of_cat CException L) in
+    {| v_matched := imp || negb exc; v_important := imp; v_exception := negb imp && exc; v_filter := imp |}.
+Proof. exact forced_exception_reads_tags. Qed.
+Print Assumptions C07_forced_exception_reads_tags.
+
 (* csp category, after any history *)
 Theorem C07_csp_hits_after_history : forall h matches pr, In 0 pr -> forall L ops f,
   id_inj L -> TG h matches pr L ->
